@@ -5,6 +5,7 @@
 package h23
 
 import (
+	"strings"
 	"crypto/tls"
 	"net/http"
 
@@ -375,13 +376,20 @@ func VH23d_netlisten() {
 		url = "wss://127.0.0.1:8080/sp"
 	}
 	sock := vp.New("pair")
+	scenario := verif.Choice("scenario", 4)
+	// port 0 ("any free port"): what the listener reports as its address afterwards is the port it was given
+	want := url
+	if scenario == 0 && verif.Choice("port-0", 2) == 1 {
+		want = strings.Replace(url, ":8080", ":49152", 1)
+		url = strings.Replace(url, ":8080", ":0", 1)
+		verif.Reach("ws-port-0")
+	}
 	l, err := sock.NewListener(url, nil)
 	verif.Assert(err == nil, lab+"/new-listener")
 	if err != nil {
 		return
 	}
 	good := &tls.Config{Certificates: []tls.Certificate{{}}}
-	scenario := verif.Choice("scenario", 4)
 	if !wss && (scenario == 1 || scenario == 2) {
 		verif.Assume(false)
 	}
@@ -440,7 +448,7 @@ func VH23d_netlisten() {
 	verif.Quiesce()
 	if e2 == nil {
 		verif.Assert(len(vnet.N.Listeners) == 1, lab+"/not-listening-after-listen")
-		verif.Assert(l.Address() == url, "C13/ws/listener-address")
+		verif.Assert(l.Address() == want, "C13/ws/listener-address")
 		verif.Reach("listening")
 	}
 	verif.Assert(sock.Close() == nil, "C10/ws/close")
